@@ -20,8 +20,12 @@ CLAIMS = {
          "All interleavings of Begin/Set/Delete/Commit/Rollback/GC over <=2-3 transactions of all levels up to the stated depth are enumerated; after every step every open reader reads every key and GetKeys in the real code and must return what the L0 promise says.", "6 C02"),
  "C03": ("TLC model checking of FsDb.tla (CommitAsPromised, Refines) + replay of emitted behaviours containing Commit/Rollback",
          "Commit result class and the autocommit read matrix after every Commit/Rollback are compared with the promise on all enumerated histories with overlapping write sets.", "6 C03"),
+ "C05": ("TLC model checking of Reopen.tla (instances x processes x sequence counter) and FsDb.tla with Close/Open at every position + replay in real OS processes",
+         "Every script of open/close/write/delete/new-process over 1-2 database instances up to the stated length is enumerated by TLC and executed in fresh child processes over the same directories; in-process Close/Open is inserted at every position of transactional histories.", "6 C05"),
  "C09": ("TLC action property GCInvisible + ReadableHasContent on FsDb.tla, replay of behaviours with the collector at every position; blame by ablation of the GC steps",
          "The collector is enabled at every state of the bounded model; in the real code all reads of all open transactions are compared before/after and for the rest of the behaviour, and a disagreement that disappears when the GC steps are left out is attributed to the collector.", "6 C09"),
+ "C11": ("the L1 behaviours emitted by TLC are replayed through external.Open against the real gRPC server and through the inline client; a disagreement only the external run shows is a C11 violation",
+         "All behaviours of the C01/C02/C03/C13 families up to the stated depth are executed through both clients (contents across the 2048-byte chunk boundary, all four levels, late operations, server restarts) and compared step by step with the L0 promise by errors.Is classes and byte equality.", "6 C11"),
  "C13": ("TLC action property LateIsIdentity on FsDb.tla with late operations enabled for every ended handle + replay with an RU observer and reopen",
          "Every operation through ended handles is tried at every state of the bounded model; the real result classes and all other readers' reads are compared with the promise. The recorded defect (late writes accepted) is modelled as the named deviation 'latewrite'.", "6 C13"),
  "C14": ("TLC invariant Reclaimed on FsDb.tla + replay of behaviours ending in quiescence with a walk of the storage roots",
